@@ -133,10 +133,14 @@ func Run[T any, R any](ins [][]T, opt Opts, build func([]<-chan T) []<-chan R) R
 		time.Sleep(500 * time.Microsecond)
 	}
 	// all outputs closed: whatever the pipeline started must now go away
+	closedAt := time.Now()
 	for spin := 0; ; spin++ {
 		v, rel := base.Verdict()
 		if v == census.None {
 			return finish("ok", "")
+		}
+		if opt.SpinLimit > 0 && spin > 3000 && time.Since(closedAt) > 6*opt.SpinLimit {
+			return finish("leak", fmt.Sprintf("outputs closed, but %d goroutines are still there %v later:\n%s", len(rel), 6*opt.SpinLimit, census.Describe(rel, 6)))
 		}
 		if v == census.Stuck {
 			if stuck, _ := base.StableStuck(); !stuck {
